@@ -107,7 +107,7 @@ let run (toks : string list) (obs : string) : string =
       String.concat " " (List.map (function
         | Ok (b, d) -> Printf.sprintf "P%d=%s" (if d then 1 else 0) (hex_of_bytes b)
         | Error e -> e) rs))
-  | ("de" | "fde") :: part :: stream :: _ ->
+  | ("de" | "fde" | "ide") :: part :: stream :: _ ->
     model_drive (partition part (bytes_of_hex stream))
   | "rt" :: part :: mask :: rest ->
     let ops = parse_ops rest in
@@ -172,10 +172,15 @@ let oracle (toks : string list) (obs : string) : (string * bool) list =
        let name = if mask = "-" then "C01.roundtrip" else "C08.drop_roundtrip" in
        [name, decoded = expected; "C01.no_empty_packet", not (String.contains sent '0')]
      | _ -> ["C01.observation_shape", false])
-  | "fde" :: part :: stream :: "|" :: expected ->
+  | "fde" :: _ :: stream :: "|" :: expected ->
     let exp = String.concat " " expected in
     (* foreign conformant stream (built by the generator's independent encoder): must decode to exactly these messages *)
-    let name = (match expected with _ when String.length part > 0 && false -> "" | _ -> "C06.foreign_stream") in
-    [name, obs = exp;
+    ["C06.foreign_stream", obs = exp;
      "C06.spec_decoder_accepts_generator_stream", show_sdec (ChunkSpec.sdec (bytes_of_hex stream)) = exp]
+  | "ide" :: _ :: stream :: "|" :: expected ->
+    let exp = String.concat " " expected in
+    (* the same with messages of distinct chunk streams interleaved chunk by chunk: each message intact, in completion order *)
+    ["C16.interleaved_streams", obs = exp;
+     "C06.foreign_stream", obs = exp;
+     "C16.spec_decoder_accepts_generator_stream", show_sdec (ChunkSpec.sdec (bytes_of_hex stream)) = exp]
   | _ -> []
